@@ -38,6 +38,7 @@ PROJECTS = {
     "glob_cfg": ("f_glob", {"mode": "tree", "cfg": 1}),
     "glob_missing": ("f_glob", {"nest": 1}),
     "glob_deep": ("f_glob", {"deep": 1}),
+    "glob_names": ("f_glob", {"mode": "names", "cfg": 1}),
 }
 # sequences over several watch phases: ("REBUILD",) asks for a rebuild in between, in both variants
 MULTI_PHASE = {
@@ -53,12 +54,18 @@ MULTI_PHASE = {
 TARGETS = {
     "glob_missing": {"files": ["data/raw/a.txt", "data/raw/b.txt", "data/x.txt"], "dirs": ["data", "data/raw"]},
     "glob_cfg": {"files": ["cfg.txt", "data/a.txt", "data/c.txt"], "dirs": ["data"]},
+    "glob_names": {"files": ["data/a.txt", "data/b.txt", "data/c.txt"], "dirs": ["data"]},
     "glob_deep": {"files": ["src/pkg/mod/a.txt", "src/pkg/mod/c.txt"], "dirs": ["src/pkg", "src/pkg/mod"]},
     "glob_tree": {"files": ["data/a.txt", "data/c.txt", "out/a.out"], "dirs": ["data", "out"]},
     "glob_pattern": {"files": ["data/a.txt", "data/c.txt", "out/b.out"], "dirs": ["data"]},
     "subplan_tree": {"files": ["sub/data/in.txt", "sub/out/s.txt"], "dirs": ["sub/data", "sub/out"]},
     "chain": {"files": ["src.txt", "a.txt", "c.txt"], "dirs": []},
 }
+
+
+def projects_files(name):
+    fam, knobs = PROJECTS[name]
+    return getattr(projects, fam)(**knobs)
 
 
 def op_menu(name):
@@ -229,8 +236,18 @@ def jobs(tier, seed):
         burst += [[a, b, c] for a, b, c in itertools.product(menu[:4], repeat=3) if len({a, b, c}) == 3][: (10 if tier == "quick" else 100)]
         for lo in range(0, len(burst), chunk):
             out.append({"name": name, "seqs": burst[lo : lo + chunk], "bound": 0, "during_build": False, "eager": True})
-        if name in MULTI_PHASE:
-            out.append({"name": name, "seqs": MULTI_PHASE[name], "bound": 0 if tier == "quick" else 1,
+        # two watch phases: something disappears, a rebuild, and it comes back (the same content
+        # or new content; a directory moved away and moved back)
+        two = list(MULTI_PHASE.get(name, []))
+        orig = projects_files(name)
+        for f in TARGETS[name]["files"]:
+            if f in orig:
+                two.append([("delete", f), ("REBUILD",), ("restore", f)])
+            two.append([("delete", f), ("REBUILD",), ("create", f)])
+        for d in TARGETS[name]["dirs"]:
+            two.append([("rename", d, d + "_moved"), ("REBUILD",), ("rename", d + "_moved", d)])
+        for lo in range(0, len(two), chunk):
+            out.append({"name": name, "seqs": two[lo : lo + chunk], "bound": 0 if tier == "quick" else 1,
                         "during_build": False})
         # single operations on static (source) files while the first build is still running
         src_ops = [op for op in menu if op[1] in TARGETS[name]["files"][:2] and op[0] in ("modify", "delete", "recreate")]
